@@ -114,6 +114,8 @@ func (o Outcome) String() string {
 type Sched struct {
 	mu      sync.Mutex
 	active  bool
+	// Panics: node -> message and stack of the first panic recovered in one of its goroutines
+	Panics map[string]string
 	started atomic.Bool // Run has begun: spawns park their parent from here on
 	parked  []*parked
 	names   map[uint64]string
@@ -307,9 +309,51 @@ func Born(name string) {
 // Go starts a named root goroutine (a node, or a helper of the harness).
 func Go(name string, f func()) {
 	go func() {
+		defer RecoverNode()
 		Born(name)
 		f()
 	}()
+}
+
+// RecoverPanics (set by whole-application harnesses): a panic in a goroutine of a
+// simulated process ends that process with status 2, as the Go runtime would, and is
+// recorded in Sched.Panics; the worker lives on. Off, RecoverNode does nothing and a
+// panic takes its ordinary course (other harnesses judge the worker's death).
+var RecoverPanics bool
+
+// RecoverNode is deferred first in every goroutine the instrumented code starts.
+func RecoverNode() {
+	if !RecoverPanics {
+		return
+	}
+	r := recover()
+	if r == nil {
+		return
+	}
+	s := S
+	if s == nil {
+		panic(r)
+	}
+	buf := make([]byte, 16<<10)
+	buf = buf[:runtime.Stack(buf, false)]
+	s.mu.Lock()
+	node := NodeOf(s.nameOfLocked("panic"))
+	if s.Panics == nil {
+		s.Panics = map[string]string{}
+	}
+	if _, ok := s.Panics[node]; !ok {
+		s.Panics[node] = fmt.Sprintf("panic: %v\n%s", r, buf)
+	}
+	if _, ok := s.exits[node]; !ok {
+		s.exits[node] = 2
+	}
+	s.dead[node] = true
+	cb := s.OnCrash
+	s.mu.Unlock()
+	if cb != nil {
+		cb(node)
+	}
+	s.Kick()
 }
 
 // Kick wakes the scheduler loop (used by simulated I/O when it creates events).
@@ -339,7 +383,22 @@ func (s *Sched) park(site, kind string, try func() bool) {
 	s.mu.Unlock()
 	s.Kick()
 	<-p.ch
+	if ExitedStayDead {
+		// released because the run is over: a goroutine of a process that has exited or was
+		// killed must not run on (its deferred calls would: os.Exit runs none)
+		s.mu.Lock()
+		gone := !s.active && s.dead[NodeOf(p.name)]
+		s.mu.Unlock()
+		if gone {
+			select {}
+		}
+	}
 }
+
+// ExitedStayDead (set by whole-application harnesses): goroutines of a process that has
+// exited or was killed block for good instead of unwinding when the run ends; the
+// bubble's end-of-run "blocked goroutines remain" panic is expected and recovered.
+var ExitedStayDead bool
 
 // Y is a generated yield point: the goroutine parks until the scheduler
 // releases it.
@@ -436,6 +495,9 @@ func Exit(code int) {
 	}
 	s.Kick()
 	<-s.stopCh
+	if ExitedStayDead {
+		select {}
+	}
 	runtime.Goexit()
 }
 
